@@ -17,7 +17,7 @@ CLAIMED = {
          "One set in five is a single invalid transaction with a rule-exempt part (new-token output next to an unbalanced one), run 16 times; sets of one or two members run four times per (order, pool). Schedules are varied by pool size, permutation, HashSet seed and process, not enumerated; a TSan build failure is reported as 'sanitizer unavailable', never as a violation.", "6/C03"),
  "C04": ("differential monitor of apply_tx acceptance against the reference interpreter evaluated per input on the reference environment heap",
          "Tens of thousands of (fabricated state, transaction) cases in which only authorisation is in question: 1-8 inputs from 13 covenant families (standard signatures with wrong key/slot/message/truncation/tampering, hash-, time-, index-, value-, data-, height-, parent-index-, output-count-bound, self-hash, random programs), inputs sharing a covenant hash with different environments, missing and corrupted covenants; accepted => every input authorised; for standard signature covenants all authorised => accepted.",
-         "One case in 150 has 250-309 inputs with the questionable ones around and beyond position 255. Sufficiency is claimed for the standard signature covenants only; covenants leaving the reference interpreter's domain give no claim.", "6/C04"),
+         "Covenant families include loops that a conditional jump leaves. One case in 150 has 250-309 inputs with the questionable ones around and beyond position 255. Sufficiency is claimed for the standard signature covenants only; covenants leaving the reference interpreter's domain give no claim.", "6/C04"),
  "C05": ("exact-arithmetic monitor of fee_pool/tips (hooked snapshots) per batch and around the proposer phase, plus threshold probes at min-1 / min / min+k found by fixpoint",
          "Random histories at multipliers {0,1,2,100,10^6,2^40,2^64,2^100} and thousands of threshold probes (0-8 inputs, 1-60 outputs, extra covenants of every weight class incl. heavy loops and undecodable bytes): accepted => fee >= floor(refweight*mult/65536); below => rejected; pool += sum(min), tips += sum(fee-min) exactly; reward coin = pool>>16 + tips to the destination at the current height with pool/tips debited exactly; no action => nothing moves.",
          "Pending tips must equal what the block's own accepted transactions paid above their minimum, before every batch and at the start of sealing. Reference weight uses the reference covenant weight (cross-checked against the implementation by C12); multipliers above 2^100 and saturating pools are exercised by C09 only.", "6/C05"),
@@ -26,7 +26,7 @@ CLAIMED = {
          "A block sealed by the honest producer (batch after batch, incl. speed-raising mints followed by further batches) must be accepted whatever the one-batch recomputation says. The expected header is computed with the implementation's own apply_tx_batch and seal (that is what the property states); their correctness is the business of the other properties.", "6/C06"),
  "C07": ("structural monitor of every sealed state against an independent reference Merkle function, plus operation-order and single-component sensitivity experiments",
          "Chaining (height, previous, network, history(h) for recorded ancestors); coins/pools/history/stakes/transactions roots recomputed from iterated contents (sparse and TIP-908 dense); inclusion proofs of entries verified by the library and by a reference verifier, tampered values and absent keys; every block transaction at its sorted position; equal maps built by different operation orders and detours; sibling states differing in one of 14 components.",
-         "Sibling states draw fee pool, fee multiplier and DOSC speed from 0..2^128-2 and their headers must carry the three scalars unchanged. blake3 is trusted; entries are sampled (24 per tree per state) when trees are larger.", "6/C07"),
+         "Hashes that are not in the block (all-zero, all-one, neighbours of present ones) must have no position. Sibling states draw fee pool, fee multiplier and DOSC speed from 0..2^128-2 and their headers must carry the three scalars unchanged. blake3 is trusted; entries are sampled (24 per tree per state) when trees are larger.", "6/C07"),
  "C08": ("two-lineage monitor: original state versus a state rebuilt from serialized block + rebuilt stake set + node-by-node copy of the content-addressed store, fed identical continuations",
          "After every sealed block of random histories a restarted lineage is created and fed the same next 5 blocks (valid and hostile batches, proposer actions); accept/reject and the whole header must agree after every step. Restart points cover with/without action, pending tips, empty blocks, epoch boundaries, testnet 499->500 and fabricated mainnet activation heights.",
          "The copied store is an in-process deep copy (no shared memory with the original), not a real disk.", "6/C08"),
@@ -59,7 +59,7 @@ CLAIMED = {
          "Multipliers beyond 2^70 are checked for totality and direction only.", "6/C17"),
  "C18": ("differential monitor of DoscMint acceptance and header dosc_speed against a reference that calls melpow with the harness's own hash functions and exact reward arithmetic",
          "Real proofs (legacy and TIP-910 hash, difficulty 1-10 quick / 14 thorough), coin ages 1-200, previous speeds 1-10^6, ERG at reward-1/reward/reward+1, mainnet age rule, corruptions (flipped byte, dropped node, other coin, other height, stated difficulty +-1, garbage data), several mints per block in different orders: accept iff decodes, verifies for the right puzzle, ERG <= reference reward and (mainnet) age >= 100; dosc_speed = max(previous, demonstrated) and never decreases.",
-         "For the random workload 'the proof verifies' is melpow's verifier called with the harness's own hash functions; that verifier does not tie the openings to the commitment, so every run also offers forged proofs (labels made up, one hash per challenged leaf, difficulties 6-56, both hashes, a custom network and mainnet) - their acceptance is the known finding F23 (known_findings.json, DESIGN section 13), printed as KNOWN-FINDING and not counted. Honest difficulties are limited by what can be proven in the time budget.", "6/C18"),
+         "For the random workload 'the proof verifies' is melpow's verifier called with the harness's own hash functions; that verifier does not tie the openings to the commitment, so every run also offers forged proofs (labels made up, one hash per challenged leaf, difficulties 6-56, both hashes, a custom network and mainnet) - their acceptance is the known finding F23 (known_findings.json, DESIGN section 13), printed as KNOWN-FINDING and not counted. One case in eight stands on a recorded DOSC speed of 2^64..2^96. Honest difficulties are limited by what can be proven in the time budget.", "6/C18"),
  "C19": ("exactly-once monitor over faucet application histories on all nine networks with replay at every later point and after restart",
          "Faucet transactions of many shapes (0-255 outputs, all denominations, the grandfathered mainnet transaction on every network) are applied and replayed in the same batch, a later batch of the same block, 1-30 blocks later, with a different sigs field, inside other batches, and after a from_block restart on a copied store; on mainnet only the grandfathered hash may be accepted, elsewhere each hash at most once per lineage.",
          "Repeated acceptance of the grandfathered transaction on mainnet itself is outside the property's wording and is not flagged.", "6/C19"),
